@@ -201,7 +201,7 @@ def run(ck, thorough):
     def one(job):
         cfg, label, path, kw = job
         kw.setdefault("workers", 4)
-        ck.tlc("css", "CssGrammar", cfg, label=label, env={"VERIF_CASES": path}, timeout=1500 if thorough else 280, **kw)
+        ck.tlc("css", "CssGrammar", cfg, label=label, env={"VERIF_CASES": path}, timeout=1500 if thorough else 900, **kw)
         if not os.path.exists(path) or os.path.getsize(path) == 0:
             ck.fatal("generator %s produced no cases" % cfg)
 
